@@ -106,6 +106,7 @@ class Ref:
     # -- entry ---------------------------------------------------------------------------------------
     def run(self, options, node=None):
         self.st = _State()
+        self.cache_depth = 0
         try:
             v = self.ev(self.spec["root"] if node is None else node, options)
             v = sem.typed(v)
@@ -377,7 +378,7 @@ class Ref:
             if "default" in n and any(p for _, p in self.st.read_log[mark:]):
                 # the dispatch failed after reading a *present* value; the default's keys do not
                 # mention it (known finding K6, same mechanism as coalesce)
-                self.st.labels.add("coalesce-absorbed-value-failure")
+                self.absorbed_value_failure()
             if "default" in n:
                 self.st.labels.add("switch-default-by-failure")
                 return self.ev(n["default"], o)
@@ -422,7 +423,7 @@ class Ref:
                 if absorbed_after_present_read:
                     # an earlier member failed for a reason that depends on a *present* value and the failure was
                     # absorbed by this member's success (known finding K6)
-                    self.st.labels.add("coalesce-absorbed-value-failure")
+                    self.absorbed_value_failure()
                 return v
             self.st.failed_member_idx.update(range(mark_t, len(self.st.touched)))
             fails |= v.fails
@@ -489,7 +490,18 @@ class Ref:
             self.st.foreign_depth -= 1
 
     def e_cached(self, n, o):
-        return self.ev(n["body"], o)
+        self.cache_depth += 1
+        try:
+            return self.ev(n["body"], o)
+        finally:
+            self.cache_depth -= 1
+
+    def absorbed_value_failure(self):
+        """Known finding K6: the keys of the absorbing expression omit what the absorbed failure read. Outcomes of
+        evaluate are affected only through the cache key of a cached consumer around it."""
+        self.st.labels.add("coalesce-absorbed-value-failure")
+        if self.cache_depth > 0:
+            self.st.labels.add("absorbed-under-cache")
 
     def e_allopts(self, n, o):
         return self.subst(o, o)
@@ -512,7 +524,12 @@ class Ref:
         self.st.visits.setdefault(d["name"], []).append(e)
         rec = [e, False]
         self.st.visit_ok.setdefault(d["name"], []).append(rec)
-        v = self._dataset_inner(d, e)
+        cached_here = not d.get("nocache")
+        self.cache_depth += cached_here
+        try:
+            v = self._dataset_inner(d, e)
+        finally:
+            self.cache_depth -= cached_here
         rec[1] = True
         return v
 
@@ -589,7 +606,7 @@ class Ref:
             if abstract:
                 raise v
             if any(p for _, p in self.st.read_log[mark:]):
-                self.st.labels.add("coalesce-absorbed-value-failure")
+                self.absorbed_value_failure()
             self.st.labels.add("dispatch-failed-default")
             return None
         if v in lookup:
